@@ -3,7 +3,7 @@
 # to build and shard.
 CHECKS = {
     "C07": dict(pkg="./c07", shards=12, race=True, race_shards=4, race_filter="^TestC07FreeRunning$"),
-    "C08": dict(pkg="./c08", shards=16),
+    "C08": dict(pkg="./c08", shards=16, level="fault_enumeration"),
     "C13": dict(pkg="./c13", shards=4, build_main=True),
     "C17": dict(pkg="./c17", shards=16),
     "C19": dict(overlay_pkg="config", overlay_files=["c19/c19_overlay_test.go"], shards=16, run_filter="^TestC19"),
